@@ -146,6 +146,23 @@ CLAIMS = {
                  "archives (truncations, byte flips: no abort, no lost row) are decided by correspondence and oracles."),
         "ref": "DESIGN.md §4 C19",
     },
+    "C04": {
+        "technique": "Lean 4 theorems over the generated mode.rs predicates and constants (bit lemmas: each permission predicate is one testBit, S_IFMT mask = type nibble), formatMode = independently defined ls -l string for every mode in ℕ, permission booleans read off the string, one-hot file-type booleans, list lemmas for name/dir/path/ext decomposition, extension-class specification + exhaustive in-process sweep of all 65 536 mode values and of capability vectors (model vs mode.rs/capabilities.rs vs Python) + on-disk correspondence and lstat/hashlib/pwd/grp/getxattr oracle",
+        "text": ("Theorems for every mode value (all of ℕ; the predicates and S_I* constants are regenerated from mode.rs on every run): "
+                 "format_mode is the ls -l string defined independently by arithmetic (type character from bits 12..15, rwx triples with "
+                 "s/S, s/S, t/T), it has ten characters, the twelve permission/suid/sgid/sticky predicates are exactly what the string shows "
+                 "at their positions, *_all are the conjunctions, and for an entry whose kind is the one its type nibble denotes the seven "
+                 "file-type columns are one-hot and name the string's first character; zip members use the same predicates on the stored "
+                 "mode. name/dir/path/ext: the last component of dir/name is name, its parent is dir, a non-empty extension is what follows "
+                 "the last dot of a name with a non-empty stem (and contains no dot), no dot means no extension; is_hidden/is_empty/size/uid/"
+                 "gid/inode/hardlinks/blocks/modified columns are the entry's attributes; an extension-class column is true exactly when the "
+                 "lower-cased name ends with an entry of the active configuration's list. NOT theorems (external code or OS, compared with "
+                 "independent implementations on every run): SHA-1/2/3 digests, the line_count/is_shebang/CONTAINS readers (sizes across "
+                 "8 KiB/32 KiB/64 KiB boundaries), owner names, xattrs, lstat itself; the capability decoder is modelled (over the generated "
+                 "capability table) and validated exhaustively per capability/flag against capabilities.rs and a Python decoder, without a "
+                 "separate specification theorem."),
+        "ref": "DESIGN.md §4 C04",
+    },
     "C17": {
         "technique": "Lean 4 theorems by mutual structural induction over trees with unlistable directories (walker result = check_file folded over the visible events; error state gains exactly the failing directories; visible events = healed tree's events minus entries with an unlistable proper ancestor; rows depend on events only), content-fault locality over the ~80-arm column evaluator + CLI correspondence run as uid 65534 + fault injection (pipe closed at byte k, strace EPIPE at write k) with a no-crash/status oracle",
         "category": "proof",
